@@ -106,6 +106,9 @@ func debugFunc(P *Program, name string, timeout int, verbose, keep bool, seed in
 		if !ok {
 			bad = true
 		}
+		if show := os.Getenv("GOVC_SHOW"); show != "" && strings.Contains(o.Name, show) {
+			fmt.Printf("  SHOW %s status=%s\n    trail: %s\n    goal: %s\n", o.Name, o.Status, o.Trail, o.ctx.Show(o.Goal))
+		}
 		if verbose || !ok {
 			fmt.Printf("  %-6s %-8s %5dms %s  %v  -- %s\n", map[bool]string{true: "ok", false: "FAIL"}[ok], o.Status, o.TimeMS, o.Name, o.Tags, o.Desc)
 			if !ok {
